@@ -322,7 +322,8 @@ def constraint_pool(ctx, wide=False):
 
 
 CANDIDATES = ['XXXX-WXX-1', 'XXXX-WXX-3', 'XXXX-WXX-7', 'XXXX-01-15', 'XXXX-12-25', 'XXXX-02-29', 'XXXX-06-30',
-              'XXXX-WXX-3T09', 'XXXX-WXX-3T13:30', 'XXXX-01-15T17', 'T09', 'T13:30', 'T17:00:30', 'PT2H', 'P1D']
+              'XXXX-WXX-3T09', 'XXXX-WXX-3T13:30', 'XXXX-01-15T17', 'T09', 'T13:30', 'T17:00:30', 'PT2H', 'P1D',
+              'T08', 'T12', 'XXXX-WXX-3T12', 'XXXX-02-01', 'XXXX-01-01']
 
 
 def cand_info(c):
@@ -410,8 +411,9 @@ def evaluate_cases(ctx):
     small_t = time_constraints(ctx)[:3]
     extra = [Con('T10', 'other'), Con('2020-01-15T10', 'other')]
     cases = []
-    cand_sets = [[c] for c in CANDIDATES] + [['XXXX-WXX-3', 'XXXX-01-15'], ['XXXX-WXX-1', 'XXXX-WXX-3T09'],
-                                             ['T09', 'T13:30'], ['XXXX-WXX-7', 'T09'], ['PT2H', 'XXXX-WXX-3']]
+    cand_sets = [[c] for c in CANDIDATES[:15]] + [['XXXX-WXX-3', 'XXXX-01-15'], ['XXXX-WXX-1', 'XXXX-WXX-3T09'],
+                                             ['T09', 'T13:30'], ['XXXX-WXX-7', 'T09'], ['PT2H', 'XXXX-WXX-3']] + \
+                [[c] for c in CANDIDATES[15:]]
     # boundary list: every single constraint x every candidate set; the DESIGN.md triple
     for c in dcs + tcs + extra:
         for cs in cand_sets:
